@@ -192,11 +192,24 @@ def replay_one(scn, rec, opts):
                         where = "%s:%s" % (os.path.basename(fr.filename), fr.name)
                         break
                 viol = ("exception", "%s:%s:%s: %s" % (phase, type(e).__name__, where, str(e)[:120]))
+            if viol is None and op.get("via", {}).get("prefix") and exp.get("k") == "solve" and obs.get("k") == "solve":
+                # evaluate_bounded on a search that may be deeper than the limit: any prefix of the answers
+                n = len(obs.get("answers", []))
+                if n <= len(exp.get("answers", [])) and obs.get("end") in ("stop", exp.get("end")):
+                    exp = dict(exp)
+                    exp["answers"] = exp["answers"][:n]
+                    exp["end"] = obs.get("end")
+                    if "pys" in exp:
+                        exp["pys"] = exp["pys"][:n]
             if viol is None:
                 if obs.get("k") == "solve" and obs.get("end") == "exception":
                     viol = ("exception", "run:" + str(obs.get("exc")))
                 elif obs.get("k") == "exception":
                     viol = ("exception", "run:" + str(obs.get("exc")))
+                elif obs.get("limit_after"):
+                    viol = ("limit", "the interpreter's recursion limit was %d before evaluate_bounded and %d after" % tuple(obs["limit_after"]))
+                elif obs.get("bad_result"):
+                    viol = ("answers", "evaluate_bounded did not return the projections of the answers in order: %s" % obs["bad_result"])
                 elif norm(_strip(obs)) != norm(_strip(exp)):
                     viol = ("answers", "observation differs")
                 elif opts.get("c15", True) and obs.get("k") == "answer" and _gv_bad([obs.get("gv")], [exp.get("ans")]):
